@@ -2,7 +2,7 @@
 from pyvc.api import (Const, DictOf, Enum, Int, Items, ListOf, Loop, Named, Obj, Opt, OutFile, Real, Ref,
                       SeqOf, Str, TupleOf, contract, harness, implies, forall, fmt)
 
-BIND = {"read_dx": "pdb2pqr.io:read_dx", "write_cube": "pdb2pqr.io:write_cube"}
+BIND = {"read_dx": "pdb2pqr.io:read_dx", "write_cube": "pdb2pqr.io:write_cube", "read_pqr": "pdb2pqr.io:read_pqr"}
 
 
 def V3():
@@ -106,3 +106,42 @@ def read_dx_lines(nx, ny, nz, o, d, v):
         'component "positions" value 1\n',
     ]
     return read_dx(lines)
+
+
+# ---------------------------------------------------------------- the conversion end to end: read_dx + read_pqr -> write_cube
+# (the seam between the three: the dictionary keys read_dx produces are the ones write_cube reads, the atoms read_pqr builds
+# carry the fields write_cube prints).  Stated over the INPUT texts: the cube's numbers are the DX header's numbers (counts
+# negated), one record per PQR atom, and the seven DX values in file order (7 is neither a multiple of 3 nor of 6).
+@harness("C18",
+         params={"cube_file": OutFile(), "nx": Int, "ny": Int, "nz": Int, "o": V3(), "d": ListOf(V3(), 3), "v": ListOf(Real, 7),
+                 "q": Real},
+         requires=["nx >= 0 and ny >= 0 and nz >= 0 and nx < 100000 and ny < 100000 and nz < 100000",
+                   "forall(range(7), lambda i: len(fmt(v[i], '.6f')) <= 12)", "len(fmt(q, '.4f')) <= 7"],
+         ensures=[
+             "file_nums(cube_file) == seq([2, pf(o[0]), pf(o[1]), pf(o[2]), "
+             "-nx, pf(d[0][0]), pf(d[0][1]), pf(d[0][2]), -ny, pf(d[1][0]), pf(d[1][1]), pf(d[1][2]), "
+             "-nz, pf(d[2][0]), pf(d[2][1]), pf(d[2][2]), "
+             "1, pf(float(fmt(q, '.4f'))), 1, 2, 3,   7, pf(Fraction(-1, 2)), -4, 5, Fraction(13, 2)] "
+             "+ [pf(v[0]), pf(v[1]), pf(v[2]), pf(v[3]), pf(v[4]), pf(v[5]), pf(v[6])])",
+         ],
+         name="dx_to_cube.compose", native=False)
+def compose(cube_file, nx, ny, nz, o, d, v, q):
+    dx = [
+        "# Data from APBS\n",
+        "object 1 class gridpositions counts " + fmt(nx, "d") + " " + fmt(ny, "d") + " " + fmt(nz, "d") + "\n",
+        "origin " + fmt(o[0], ".6f") + " " + fmt(o[1], ".6f") + " " + fmt(o[2], ".6f") + "\n",
+        "delta " + fmt(d[0][0], ".6f") + " " + fmt(d[0][1], ".6f") + " " + fmt(d[0][2], ".6f") + "\n",
+        "delta " + fmt(d[1][0], ".6f") + " " + fmt(d[1][1], ".6f") + " " + fmt(d[1][2], ".6f") + "\n",
+        "delta " + fmt(d[2][0], ".6f") + " " + fmt(d[2][1], ".6f") + " " + fmt(d[2][2], ".6f") + "\n",
+        "object 2 class gridconnections counts 1 1 1\n",
+        "object 3 class array type double rank 0 items 7 data follows\n",
+        fmt(v[0], ".6f") + " " + fmt(v[1], ".6f") + " " + fmt(v[2], ".6f") + "\n",
+        fmt(v[3], ".6f") + " " + fmt(v[4], ".6f") + " " + fmt(v[5], ".6f") + "\n",
+        fmt(v[6], ".6f") + "\n",
+        'attribute "dep" string "positions"\n',
+    ]
+    pqr = ["REMARK   1 PQR\n",
+           "ATOM      1  N   MET     1       1.000   2.000   3.000 " + fmt(q, ".4f") + " 1.5000\n",
+           "HETATM    7  O   HOH     2      -4.000   5.000   6.500 -0.5000 1.4000\n", "TER\n", "END\n"]
+    write_cube(cube_file, read_dx(dx), read_pqr(pqr))
+    return cube_file
